@@ -46,6 +46,10 @@ def model(prog):
         elif opd[0] == "q":
             ev.append(("vp_argv", ["Q%d" % i, str(st)]))
             st = 0
+        elif opd[0] == "k":
+            # an operand that is killed by a signal: status 128+signal
+            ev.append(("vp_status", ["sig%d" % opd[1], opd[2]]))
+            st = 128 + opd[1]
         else:
             # a command that succeeds without running a program (assignment-only, builtin): no event, status 0
             st = 0
@@ -62,6 +66,8 @@ def render(prog, spacing):
             parts.append("vp_status %d %s" % (opd[1], opd[2]) + "".join(" " + d for d in opd[3]))
         elif opd[0] == "q":
             parts.append("vp_argv Q%d $?" % i)
+        elif opd[0] == "k":
+            parts.append("vp_status sig%d %s" % (opd[1], opd[2]))
         else:
             parts.append(SILENT[opd[1]] % {"i": i})
     return "".join(parts)
@@ -96,7 +102,7 @@ def judge(case):
         for i, (op, opd) in enumerate(prog):
             if opd[0] == "z":
                 continue        # leaves no event of its own
-            name = opd[2] if opd[0] == "s" else "Q%d" % i
+            name = opd[2] if opd[0] in ("s", "k") else "Q%d" % i
             did = k < len(obs_names) and obs_names[k] == name
             if did != ran[i]:
                 prev_skipped = i > 0 and not ran[i - 1]
@@ -143,6 +149,8 @@ def gen_cases(tier, seed):
                 opd = ("q",)
             elif r < 0.42:
                 opd = ("z", rng.choice(sorted(SILENT)))
+            elif r < 0.5:
+                opd = ("k", rng.choice([15, 9, 1, 10]), "m%d" % i)
             else:
                 dec = tuple(rng.choice(DECOYS) for _ in range(rng.choice([0, 0, 1, 2])))
                 opd = ("s", rng.choice([0, 0, 1, 2, 7, 127, 255]), "m%d" % i, dec)
@@ -169,7 +177,7 @@ def run(tier, seed):
     rep.rule = ("all programs p1 op .. pn, n<=6, codes {0,1}, ops {; && ||} exhaustively via -c "
                 "(and via script files, sampled in quick / all in thorough); random programs n<=12 with "
                 "codes {0,1,2,7,127,255}, quoted/escaped decoy operators (ASCII and multi-byte) as arguments, $? probes and operands "
-                "that succeed without running a program (assignment-only, export, cd ., alias definition), "
+                "that succeed without running a program (assignment-only, export, cd ., alias definition) and operands killed by a signal (status 128+n), "
                 "varied spacing, via -c and script.  Non-trivial = has at least one operator; distinct by "
                 "(program, mode, spacing).")
     rep.assumptions = ["helper programs log atomically to an O_APPEND file; file order = execution order "
